@@ -12,6 +12,16 @@ the pipelines as the parameter `decode`; the `pure` stream feeds them structured
 and random bytes under `catch_unwind` – that is sampling and search, not proof.
 
 Property theorems only; helper lemmas live in `KrillModel.Input.Lemmas`.
+
+Clause → theorem (property text of C16 in properties.jsonl)
+| clause | theorem(s) |
+|---|---|
+| no API request body … makes request processing panic (krill's own value-level code) | `validated_arith_total`, `nr_of_specific_prefixes_value`, `checked_shl_is_bitvec_shl`, `covers_total`, `prefix_parse_total`, `roa_aggregate_key_total`, `asn_parse_range`, `authorizes_excess_total`, `analyse_total`, `counters_total` |
+| no path segment (history paging `…/commands/{rows}/{offset}`) | `paging_total` (+ `pinned_paging_capacity_unbounded`, fix 6a45cf4f); exercised by the http `pathfuzz` stage |
+| stored-format values (versions, times) | `next_number_total`, `now_plus_weeks_total` / `now_plus_weeks_overflow_config` (operator configuration), `refresh_test_total` |
+| such input yields an error reply and leaves configuration unchanged | `pipeline_total`, `dry_run_total` (decoder a parameter) |
+| no byte sequence sent to the provisioning or publication endpoints | NOT proved: third-party decoders are sampled by the mutation stream (`dec rfc6492|rfc8181 …`); F-C16-2 (rpki-rs `Asn::from_str`) is the open finding of that sampling |
+| (pinned tree, fixed) | `pinned_nr_of_specific_prefixes_overflow` (F-C16-1, da59be0d), `pinned_paging_capacity_unbounded` (6a45cf4f) |
 -/
 import KrillModel.Input.Lemmas
 import KrillModel.Ca.Lemmas
@@ -140,6 +150,103 @@ theorem roa_aggregate_key_total (s : List Char) : roaAggregateKeyFromStr s ≠ n
 theorem authorizes_excess_total (r : Roa) (n : Nat) : authorizesExcess r n ≠ none := by
   unfold authorizesExcess nrOfSpecificPrefixes
   by_cases h : n > 0 <;> simp [h]
+
+/-! ## Counters, versions, time, paging – over the full machine ranges -/
+
+/-- The shift of `nr_of_specific_prefixes`, stated on the machine type: for every shift
+amount below the width the checked model is the 128-bit shift. -/
+theorem checked_shl_is_bitvec_shl (d : Nat) (h : d < 128) :
+    checkedShl 128 1 d = some ((1#128 <<< d).toNat) := by
+  unfold checkedShl
+  have h1 : (1#128).toNat = 1 := rfl
+  simp only [h, if_true, Nat.one_mul, BitVec.toNat_shiftLeft, Nat.shiftLeft_eq, h1]
+
+/-- **History paging** (`command_history_for_records`, after fix 6a45cf4f) **is total for
+every `offset` and `rows` a client can send** (`usize`, no bound assumed) and every record
+list that fits in memory: no `total += 1`, `skipped += 1` or `total - skipped` overflows,
+the page holds `min(matches after the offset, rows)` commands, and the pre-allocated
+capacity never exceeds the number of stored records. -/
+theorem paging_total (offset rows : Nat) (hits : List Bool) (hlen : hits.length < 2 ^ 64) :
+    ∃ st, pageLoop offset rows ⟨0, 0, 0⟩ hits = some st ∧
+      st.taken = min (st.total - st.skipped) rows ∧ st.skipped ≤ offset ∧
+      st.total ≤ hits.length ∧ st.taken ≤ rows ∧ st.taken ≤ hits.length ∧
+      pageCapacity rows hits.length ≤ hits.length := by
+  have hinv0 : PageInv offset rows ⟨0, 0, 0⟩ := ⟨Nat.le_refl _, Nat.zero_le _, fun _ => rfl, by simp⟩
+  obtain ⟨st, hs, ⟨h1, h2, _, h4⟩, hle⟩ := pageLoop_inv offset rows hits ⟨0, 0, 0⟩ hinv0 (by simpa using hlen)
+  simp only [Nat.zero_add] at hle
+  refine ⟨st, hs, h4, h2, hle, ?_, ?_, ?_⟩
+  · rw [h4]; exact Nat.min_le_right _ _
+  · rw [h4]; have := Nat.min_le_left (st.total - st.skipped) rows; omega
+  · unfold pageCapacity; exact Nat.min_le_right _ _
+
+/-- COUNTER-MODEL WITNESS – the pinned tree asked for a capacity of `rows` elements, i.e.
+whatever the client sent (`Vec::with_capacity(usize::MAX)` is "capacity overflow"). -/
+theorem pinned_paging_capacity_unbounded :
+    pageCapacityPinned (2 ^ 64 - 1) 3 = 2 ^ 64 - 1 ∧ pageCapacity (2 ^ 64 - 1) 3 = 3 := by decide
+
+/-- Every per-entry `usize` counter (`BgpStats`, paging totals) is total: it counts elements
+of a list that is in memory. -/
+theorem counters_total {α} (p : α → Bool) (l : List α) (hlen : l.length < 2 ^ 64) :
+    ∃ n, countChecked p l = some n ∧ n ≤ l.length :=
+  countChecked_total p l hlen
+
+/-- `version + 1` (`u64`) overflows exactly at `u64::MAX`; versions count stored commands. -/
+theorem next_number_total (v : Nat) : nextNumber v = none ↔ 2 ^ 64 - 1 ≤ v := by
+  unfold nextNumber checkedAdd
+  by_cases h : v + 1 < 2 ^ 64
+  · simp [h]; omega
+  · simp [h]; omega
+
+/-- AS numbers of the text notations are parsed into the `u32` range or refused. -/
+theorem asn_parse_range (s : List Char) (v : Nat) (h : parseU32 s = some v) : v < 2 ^ 32 := by
+  unfold parseU32 at h
+  generalize stripPlus s = s' at h
+  simp only at h
+  by_cases hc : (s'.isEmpty || !(s'.all isDigit)) = true
+  · rw [if_pos hc] at h; cases h
+  · rw [if_neg hc] at h
+    by_cases hv : s'.foldl (fun acc c => acc * 10 + (c.toNat - 48)) 0 < 2 ^ 32
+    · rw [if_pos hv] at h
+      simp only [Option.some.injEq] at h
+      rw [← h]; exact hv
+    · rw [if_neg hv] at h; cases h
+
+/-- **`Time::now() + weeks`** (validity and re-issue times, `u32` weeks from the
+configuration) **is total** for every clock reading up to the year 2100 and every value up
+to 13 000 000 weeks (≈ 249 000 years) … -/
+theorem now_plus_weeks_total (now : Int) (weeks : Nat) (h0 : 0 ≤ now) (h1 : now ≤ 4102444800)
+    (hw : weeks ≤ 13000000) : nowPlusWeeks now weeks = some (now + weeks * 604800) := by
+  unfold nowPlusWeeks
+  apply checkedAddSecs_eq_some
+  unfold minUtc maxUtc
+  constructor <;> omega
+
+/-- … but not for every `u32`: `timing_*_weeks = 4294967295` in the configuration file makes
+`DateTime + TimeDelta` overflow.  (Operator-controlled configuration, not client input; the
+full statement "total for all `u32`" is false and this is its witness.) -/
+theorem now_plus_weeks_overflow_config : nowPlusWeeks 1800000000 (2 ^ 32 - 1) = none := by decide
+
+/-- The RISwhois refresh test `last_checked + interval >= now` is total for the never-checked
+sentinel and for every past check, with any `u32` number of minutes. -/
+theorem refresh_test_total (lastChecked : Option Int) (minutes : Nat) (now : Int)
+    (hm : minutes < 2 ^ 32) (hl : ∀ t, lastChecked = some t → 0 ≤ t ∧ t ≤ 4102444800) :
+    refreshNotDue lastChecked minutes now ≠ none := by
+  unfold refreshNotDue
+  have key : ∀ t : Int, minUtc ≤ t → t ≤ 4102444800 →
+      checkedAddSecs t (minutes * 60) = some (t + minutes * 60) := by
+    intro t h1 h2
+    apply checkedAddSecs_eq_some
+    unfold minUtc at h1
+    unfold minUtc maxUtc
+    constructor <;> omega
+  cases hc : lastChecked with
+  | none =>
+    rw [Option.getD_none, key minUtc (Int.le_refl _) (by unfold minUtc; omega)]
+    simp
+  | some t =>
+    obtain ⟨a, b⟩ := hl t hc
+    rw [Option.getD_some, key t (by unfold minUtc; omega) b]
+    simp
 
 /-! ## The analyser -/
 
